@@ -90,3 +90,14 @@ package liquid
 //@ requires recv: e != nil
 //@ assigns *
 //@ ensures failure: result1 != nil ==> result0 == ""
+
+// A template that parses is cached for {% include %}, through the locked accessor (C04, C14);
+// one that does not parse is not.
+//@ func (*liquid.Engine).ParseTemplateAndCache
+//@ props C04 C14 C01
+//@ panics nothing
+//@ requires recv: e != nil
+//@ ghost cached Int = 0
+//@ at call CacheSource #1 before assert whatWasParsed: arg1 == path && arg2 == source
+//@ at call CacheSource #1: cached = cached + 1
+//@ ensures cachedIffParsed: (result1 == nil) == (cached == 1)
